@@ -430,7 +430,8 @@ static uint64_t edn_value_hash_internal(const edn_value_t* value) {
 
     uint64_t hash = FNV_OFFSET_BASIS;
 
-    hash ^= (uint64_t) value->type;
+    /* Lists and vectors compare equal element-wise, so they must hash alike */
+    hash ^= (uint64_t) (value->type == EDN_TYPE_VECTOR ? EDN_TYPE_LIST : value->type);
     hash *= FNV_PRIME;
 
     switch (value->type) {
@@ -478,6 +479,8 @@ static uint64_t edn_value_hash_internal(const edn_value_t* value) {
 
             if (isnan(val.d)) {
                 val.u = 0x7FF8000000000000ULL;
+            } else if (val.d == 0.0) {
+                val.d = 0.0; /* -0.0 == 0.0, so both must hash alike */
             }
 
             for (size_t i = 0; i < sizeof(uint64_t); i++) {
